@@ -102,7 +102,7 @@ def dyadic(m, e):
 class C02(Property):
     id = "C02"
     title = "Adaptive load shedder: sheds only when overloaded and over capacity"
-    quick_cases = 280
+    quick_cases = int(os.environ.get("VERIF_C02_CASES", "260"))     # VERIF_C02_CASES=0: the fixed corpus alone
     thorough_cases = 9000
     design_ref = "DESIGN.md §6/C02"
     level_text = ("Unbounded Rocq theorems over every configuration, every history of Allow/Pass/Fail with arbitrary clock "
@@ -225,6 +225,9 @@ class C02(Property):
         cs.append({"kind": "multi", "t0": B, "mode": "real",
                    "group": {"window": 2 * SEC, "buckets": 4, "threshold": 500, "via": "group", "key": ""},
                    "shedders": sh, "ops": ops})
+        cs += self._order_corpus()
+        cs += self._episode_corpus()
+        cs += self._constants_corpus()
         # overlapping Allows with nothing in flight: 40 let in and drained one by one (capacity estimate 1, average ~ 8),
         # then 3 calls parked inside Allow at once, CPU over the threshold: the first one released is let in (nothing in
         # flight), the others see 1 and 2 in flight
@@ -277,6 +280,143 @@ class C02(Property):
                 import json
                 obj = json.load(open(os.path.join(vlib.ROOT, "corpus", "C02", fn)))
                 cs.append(obj.get("case", obj))
+        return cs
+
+    # ---- the ORDER of the configuration calls (seeded C02-10: ShedderGroup deciding "nop or adaptive" when it is
+    # made instead of when a member is built).  A script is a list of tokens
+    #   "D" load.Disable() | ("G", g) NewShedderGroup | ("N", k) build shedder k (NewAdaptiveShedder, or the first
+    #   GetShedder of its key) | ("R", k) GetShedder again | ("T", k) a burst on shedder k that ends saturated under
+    #   a CPU of 1000: 20 let in, 10 failed, then two Allows - a live shedder sheds both (in flight 10, average ~ 8.9,
+    #   capacity 1), a shedder built after Disable() lets both in | ("L", k) a few requests let in and left open
+    #   | ("X", k) resolve what ("L", k) left open
+    def _order_case(self, shedders, groups, script, t0=BASE, mode="real"):
+        ops, t = [], t0
+        left = {}
+        for tok in script:
+            if tok == "D":
+                ops.append(["disable"])
+            elif tok[0] == "G":
+                ops.append(["group", tok[1]])
+            elif tok[0] == "N":
+                t += 7 * MS
+                ops.append(["new", tok[1], t])
+            elif tok[0] == "R":
+                ops.append(["get", tok[1]])
+            elif tok[0] == "L":
+                for _ in range(3):
+                    left.setdefault(tok[1], []).append(len(ops))
+                    ops.append(["allow", tok[1], t, 0, 0])
+            elif tok[0] == "X":
+                for i in left.pop(tok[1], []):
+                    ops.append(["fail", tok[1], i])
+            else:
+                k = tok[1]
+                t += MS
+                first = len(ops)
+                ops += [["allow", k, t, 1000, 1000] for _ in range(20)]
+                ops += [["fail", k, first + i] for i in range(10)]
+                ops += [["allow", k, t + 1, 1000, 1000], ["allow", k, t + 2, 1000, 1000]]
+                ops += [["fail", k, first + i] for i in range(10, 20)]
+        return {"kind": "multi", "t0": t0, "mode": mode, "group": None, "groups": groups, "shedders": shedders, "ops": ops}
+
+    def _order_corpus(self):
+        g0 = {"window": 2 * SEC, "buckets": 4, "threshold": 500, "via": "group", "key": ""}
+        g1 = {"window": 5 * SEC, "buckets": 50, "threshold": 900, "via": "group", "key": "", "omit": ["window", "buckets", "threshold"]}
+
+        def mem(g, key, gc):
+            return {"window": gc["window"], "buckets": gc["buckets"], "threshold": gc["threshold"], "via": "group",
+                    "key": key, "grp": g}
+
+        def direct(w, b, th, **kw):
+            return dict({"window": w, "buckets": b, "threshold": th, "via": "direct", "key": ""}, **kw)
+        cs = []
+        # Disable() AFTER NewShedderGroup, BEFORE the first GetShedder: the member is a nopShedder
+        cs.append(self._order_case([mem(0, "a", g0)], [g0], [("G", 0), "D", ("N", 0), ("T", 0)]))
+        # ... the group made before the first operation (no "group" op), two keys
+        cs.append(self._order_case([mem(0, "a", g0), mem(0, "b", g0)], [g0], ["D", ("N", 0), ("N", 1), ("T", 1), ("T", 0)]))
+        # one scenario, every position: group, member a, direct 1 (live) | Disable | member b, direct 3 (nop); a again
+        sh = [mem(0, "a", g0), direct(SEC, 10, 900), mem(0, "b", g0), direct(SEC, 10, 900, dup=True)]
+        cs.append(self._order_case(sh, [g0], [("G", 0), ("N", 0), ("N", 1), ("L", 0), "D", ("N", 2), ("N", 3), ("R", 0), ("X", 0),
+                                              ("T", 2), ("T", 0), ("T", 3), ("T", 1), ("R", 2), ("R", 0)]))
+        # Disable() first of all: group, member and direct shedder are all built afterwards
+        cs.append(self._order_case([mem(0, "a", g0), direct(3 * SEC, 5, 0)], [g0], ["D", ("G", 0), ("N", 0), ("N", 1), ("T", 0), ("T", 1)]))
+        # two groups, Disable() between their constructions, members of both built afterwards (the second group with
+        # the default options); Disable() twice
+        sh = [mem(0, "a", g0), mem(1, "a", g1), mem(1, "b", g1)]
+        cs.append(self._order_case(sh, [g0, g1], [("G", 0), "D", ("G", 1), ("N", 1), ("N", 0), "D", ("N", 2), ("T", 0), ("T", 1), ("T", 2)]))
+        # the control: no Disable() at all - every shedder is live, sheds when saturated, options passed twice
+        sh = [mem(0, "a", dict(g0, dup=True)), direct(SEC, 10, 900), mem(1, "k", g1)]
+        cs.append(self._order_case(sh, [dict(g0, dup=True), g1], [("G", 1), ("G", 0), ("N", 0), ("N", 1), ("N", 2), ("T", 0), ("T", 1), ("T", 2), ("R", 0)]))
+        # Disable() in the middle of the traffic of a live member: it stays live (requests in flight are resolved, it
+        # sheds again), the next key gets a nopShedder
+        sh = [mem(0, "a", g0), mem(0, "b", g0)]
+        cs.append(self._order_case(sh, [g0], [("N", 0), ("L", 0), "D", ("X", 0), ("T", 0), ("N", 1), ("T", 1), ("R", 0)]))
+        return cs
+
+    # ---- "while shedding was already in progress" (seeded C02-8: a fast path that skips the cool-off bookkeeping
+    # when nothing is in flight).  An episode starts with a shed request and ends at the first Allow under a cool CPU
+    # at least coolOffDuration after the last overloaded one; a later CPU spike that sheds nothing must not re-open it.
+    def _episode_corpus(self):
+        B = BASE
+        cs = []
+        for idle_allows, with_flight in ((3, False), (2, True)):
+            ops = [["allow", B, 0, 0] for _ in range(20)] + [["fail", i] for i in range(10)]      # 0..29: 10 in flight, avg ~ 8.9
+            ops += [["allow", B + 1, 1000, 1000]]                                                  # 30: shed - the episode starts
+            ops += [["fail", i] for i in range(10, 20)]                                           # 31..40: drained
+            t = B + 1 + COOL                                                                       # the cool-off is over
+            for j in range(idle_allows):                                                           # strictly sequential idle traffic
+                i = len(ops)
+                if with_flight and j == 0:
+                    ops += [["allow", t, 0, 0], ["allow", t, 0, 0], ["fail", i], ["fail", i + 1]]  # one Allow sees another in flight
+                else:
+                    ops += [["allow", t + j, 0, 0], ["pass", i, t + j + MS]]
+            t += 10 * SEC
+            i = len(ops)
+            ops += [["allow", t, 0, 0] for _ in range(20)] + [["fail", i + k] for k in range(9)]   # 11 in flight, avg high again
+            ops += [["allow", t + 1, 1000, 1000]]          # a spike; sheds (saturated): a NEW episode - fine in both readings
+            ops += [["fail", i + k] for k in range(9, 20)]
+            # drain, cool off again with idle sequential traffic only, then a spike that sheds NOTHING (1 in flight, average
+            # decayed), then load under a cool CPU within the second after the spike: let in (no episode is open)
+            t2 = t + 1 + COOL + 5
+            i = len(ops)
+            ops += [["allow", t2, 0, 0], ["pass", i, t2 + MS]]
+            for j in range(60):                              # the moving average decays to ~ 0 (60 resolutions at 0)
+                i = len(ops)
+                ops += [["allow", t2 + 2 * MS + j, 0, 0], ["fail", i]]
+            t3 = t2 + 3 * SEC
+            i = len(ops)
+            ops += [["allow", t3, 0, 0], ["allow", t3, 1000, 1000]]       # the spike: 1 in flight, average ~ 0 -> let in
+            j = len(ops)
+            ops += [["allow", t3 + 1, 0, 0] for _ in range(20)] + [["fail", j + k] for k in range(10)]
+            ops += [["allow", t3 + COOL // 2, 0, 0], ["allow", t3 + COOL - 1, 0, 0]]   # cool CPU, saturated, < 1 s after the spike
+            cs.append(self._case(5 * SEC, 50, 900, B, ops))
+        return cs
+
+    # ---- every constant of adaptiveshedder.go decides something in a fixed history (tools/c02consts.py falls back on
+    # these when a constant cannot be located in the source any more): the three defaults with every option left out
+    # (a pass seen 49 buckets later and gone after 50, threshold 900 vs 899), the overload factor half way between the
+    # threshold and cpuMax, the 10 % floor, defaultMinRt on an empty window, the cool-off second
+    def _constants_corpus(self):
+        B = BASE
+        cs = []
+        for tt in (49 * 100 * MS, 50 * 100 * MS):
+            # 14 in flight, average ~ 15; capacity 6 x 99 / 100 while the passes are in the window, 10 afterwards
+            ops = [["allow", B, 0, 0] for _ in range(30)] + [["pass", i, B + 99 * MS] for i in range(6)]
+            ops += [["fail", i] for i in range(6, 16)]
+            ops += [["allow", B + tt, 899, 899], ["allow", B + tt, 900, 900], ["allow", B + tt, 950, 950]]
+            cs.append(self._case(5 * SEC, 50, 900, B, ops, omit=("window", "buckets", "threshold")))
+        # capacity 40 (10 passes of 400 ms in one bucket x 400 / 100); CPU 950: factor 1/2 -> bound 20; 990: 1/10 -> 4;
+        # 1000: 0, raised to the 10 % floor -> 4; 900: 1 -> 40
+        for nfl, cpu in ((19, 950), (21, 950), (3, 990), (5, 990), (3, 1000), (5, 1000), (39, 900), (41, 900)):
+            ops = [["allow", B, 0, 0] for _ in range(10)] + [["pass", i, B + 400 * MS] for i in range(10)]
+            t = B + 550 * MS
+            i = len(ops)
+            ops += [["allow", t, 0, 0] for _ in range(nfl + 8)] + [["fail", i + k] for k in range(8)]
+            for _ in range(12):                         # the average settles just above the in-flight count
+                j = len(ops)
+                ops += [["allow", t, 0, 0], ["fail", j]]
+            ops += [["allow", t, cpu, cpu], ["allow", t, cpu, cpu]]
+            cs.append(self._case(5 * SEC, 50, 900, B, ops, omit=("window", "buckets")))
         return cs
 
     def _case(self, window, buckets, th, t0, ops, enabled=True, via="direct", mode="real", omit=()):
@@ -338,6 +478,9 @@ class C02(Property):
                 cases.append(self._gen_other(rng))
                 continue
             r0 = rng.random()
+            if r0 < 0.06:
+                cases.append(self._gen_order(rng))
+                continue
             if r0 < 0.22:
                 cases.append(self._gen_multi(rng, tier))
                 continue
@@ -514,6 +657,58 @@ class C02(Property):
             resolve(1, "pass")
         return self._case(window, buckets, th, t0, ops[:160])
 
+    # the order of the configuration calls, drawn at random: 1-2 groups, 1-3 members, 0-2 directly built shedders,
+    # Disable() (once, twice or never) at any position, NewShedderGroup anywhere before its first member, GetShedder
+    # repeated, every shedder driven to saturation afterwards (a live one sheds, one built after Disable() does not)
+    def _gen_order(self, rng):
+        ng = rng.choice([1, 1, 2])
+        groups = []
+        for g in range(ng):
+            w, b = rng.choice([(2 * SEC, 4), (SEC, 10), (5 * SEC, 50), (3 * SEC, 5), (10 * SEC, 10)])
+            gc = {"window": w, "buckets": b, "threshold": rng.choice([900, 500, 0, 990]), "via": "group", "key": ""}
+            if rng.random() < 0.25:
+                gc = dict(gc, window=DEFAULTS["window"], buckets=DEFAULTS["buckets"], threshold=DEFAULTS["threshold"],
+                          omit=["window", "buckets", "threshold"])
+            elif rng.random() < 0.3:
+                gc["dup"] = True
+            groups.append(gc)
+        shedders, items = [], []
+        for g in range(ng):
+            for j in range(rng.choice([1, 1, 2, 3]) if g == 0 else rng.choice([1, 2])):
+                gc = groups[g]
+                shedders.append({"window": gc["window"], "buckets": gc["buckets"], "threshold": gc["threshold"],
+                                 "via": "group", "key": "k%d" % j, "grp": g})
+        for _ in range(rng.choice([0, 1, 1, 2])):
+            w, b = rng.choice([(SEC, 10), (5 * SEC, 50), (3 * SEC, 5), (2 * SEC, 2)])
+            d = {"window": w, "buckets": b, "threshold": rng.choice([900, 500, 0]), "via": "direct", "key": ""}
+            if rng.random() < 0.3:
+                d["dup"] = True
+            shedders.append(d)
+        order = list(range(len(shedders)))
+        rng.shuffle(order)
+        script = [("N", k) for k in order]
+        # NewShedderGroup: anywhere before the first member of the group (or before the first operation: no op)
+        for g in range(ng):
+            if rng.random() < 0.75:
+                first = min(i for i, t in enumerate(script) if t[0] == "N" and shedders[t[1]].get("grp", -1) == g
+                            and shedders[t[1]]["via"] == "group")
+                script.insert(rng.randint(0, first), ("G", g))
+        for _ in range(rng.choice([0, 1, 1, 1, 2])):
+            script.insert(rng.randint(0, len(script)), "D")
+        # traffic: every shedder saturated once, somewhere after it was built; now and then requests left open across
+        # the Disable(), GetShedder repeated
+        for k in order:
+            born = next(i for i, t in enumerate(script) if t == ("N", k))
+            script.insert(rng.randint(born + 1, len(script)), ("T", k))
+            if rng.random() < 0.3:
+                a = rng.randint(born + 1, len(script))
+                script.insert(a, ("L", k))
+                script.insert(rng.randint(a + 1, len(script)), ("X", k))
+            if shedders[k]["via"] == "group" and rng.random() < 0.5:
+                script.insert(rng.randint(born + 1, len(script)), ("R", k))
+        return self._order_case(shedders, groups, script, t0=BASE + rng.choice([0, 1, rng.randrange(10 * SEC)]),
+                                mode="split" if rng.random() < 0.2 else "real")
+
     # several shedders of one process (directly built and members of ONE ShedderGroup), built at different
     # moments, load.Disable() possibly in between, their Allow / Pass / Fail operations interleaved
     def _gen_multi(self, rng, tier):
@@ -541,7 +736,14 @@ class C02(Property):
         disable_at = rng.randrange(nops) if rng.random() < 0.35 else None
         traces = [rng.choice(["high", "high", "at", "spiky", "mixed", "mixed", "low"]) for _ in range(n)]
         styles = [rng.choice(["short", "bucket", "long", "mixed"]) for _ in range(n)]
-        ops = [["new", 0, t0]]
+        # NewShedderGroup: before the first operation (no op), as the first operation, or only just before the first member
+        # is asked for - Disable() may fall before it, between it and the first GetShedder, or later
+        group_when = rng.choice(["implicit", "first", "lazy"]) if gcfg is not None else "implicit"
+        ops = [["group", 0]] if group_when == "first" else []
+        if group_when == "lazy" and shedders[0]["via"] == "group":
+            ops.append(["group", 0])
+            group_when = "done"
+        ops.append(["new", 0, t0])
         alive = [0]
         pending = list(range(1, n))
         open_ids = {k: [] for k in range(n)}
@@ -555,9 +757,17 @@ class C02(Property):
             if pending and len(ops) >= births[0]:
                 k = pending.pop(0)
                 births.pop(0)
+                if group_when == "lazy" and shedders[k]["via"] == "group":
+                    ops.append(["group", 0])
+                    group_when = "done"
                 ops.append(["new", k, t])
                 alive.append(k)
                 continue
+            if rng.random() < 0.02:
+                members = [k for k in alive if shedders[k]["via"] == "group"]
+                if members:
+                    ops.append(["get", rng.choice(members)])
+                    continue
             k = rng.choice(alive)
             cfg = shedders[k]
             th = cfg["threshold"]
@@ -704,9 +914,21 @@ class C02(Property):
             if rc != 0 or len(res) != len(sub):
                 raise ExecError("c02 %s executor rc=%s (%d/%d results): %s" % (ex, rc, len(res), len(sub), log_[-3000:]))
             for i, r, off in zip(idx, res, offs):
+                kind = cases[i].get("kind", "shed")
+                if kind == "conc":
+                    # a forced schedule that cannot be carried out on this tree (a call that should park inside the
+                    # overload checker never gets there, ...) is a disagreement with the interleaving model on THIS case,
+                    # not a reason to stop judging the others
+                    bad = [b["bad"] for b in (r.get("obs") or []) if b.get("bad")]
+                    if bad or (r.get("err") and "cpu gauge" not in r["err"]):
+                        out[i] = {"broken": (bad[0] if bad else r["err"])}
+                        continue
                 if r.get("err"):
                     raise ExecError("c02 executor: case %s: %s" % (cases[i].get("id"), r["err"]))
-                kind = cases[i].get("kind", "shed")
+                if kind in ("shed", "multi"):
+                    bad = [b["bad"] for b in r["obs"] if b.get("bad")]
+                    if bad:
+                        raise ExecError("c02 executor: case %s: %s" % (cases[i].get("id"), bad[0]))
                 if kind == "shed":
                     nw = r["obs"][off - 1]
                     out[i] = {"obs": r["obs"][off:], "same": nw["same"], "nop": nw["nop"], "ws": [nw["wm"], nw["we"]],
@@ -714,9 +936,6 @@ class C02(Property):
                 elif kind in ("multi", "wrest", "wrpc"):
                     out[i] = {"obs": r["obs"], "tries": r.get("tries", 1)}
                 elif kind == "conc":
-                    bad = [b["bad"] for b in r["obs"] if b.get("bad")]
-                    if bad:
-                        raise ExecError("c02 conc executor: case %s: %s" % (cases[i].get("id"), bad[0]))
                     out[i] = {"obs": r["obs"], "ws": r["ws"], "tries": r.get("tries", 1)}
                 else:
                     out[i] = {"obs": r["obs"]}
@@ -786,7 +1005,8 @@ class C02(Property):
             return "CGroup %s %s" % (clist([cz(k) for k in case["keys"]]),
                                      clist(["(%s, %s)" % (cz(a), cz(b)) for a, b in obs["obs"]]))
         if kind == "multi":
-            return "CMulti %s" % clist(["(%s)" % self._coq_shed(c, o) for c, o in self._split(case, obs)])
+            return "CWorld %s %s" % (self._coq_world(case),
+                                     clist(["(%s)" % self._coq_shed(c, o) for c, o in self._split(case, obs)]))
         if kind in ("wrest", "wrpc"):
             return self._coq_wreal(case, obs)
         if kind == "conc":
@@ -808,6 +1028,10 @@ class C02(Property):
         return vis
 
     def _coq_conc(self, case, obs):
+        if obs.get("broken"):
+            # the schedule could not be executed: agrees = false (window scale 0), nothing to judge (no operations)
+            return "CConc (mkCfg %s %s %s true) %s (0, 0) []" % (cz(case["window"]), cz(case["buckets"]), cz(case["threshold"]),
+                                                                 cz(case["t0"]))
         items = []
         for o, b in zip(case["ops"], obs["obs"]):
             ka = "KA %s %s %s %s %s %s %s %s" % (cbool(b["shed"]), cz(b["fl"]), cz(b["mp"]), cz(b["rt"]), cz(b["am"]), cz(b["ae"]),
@@ -863,16 +1087,23 @@ class C02(Property):
     @staticmethod
     def _split(case, obs):
         """a scenario -> one (single-shedder case, observation) pair per shedder, promise ids local"""
-        per = {}
+        per = {}      # in the order in which the shedders were built
         disabled = False
         where = {}    # global op index of an Allow -> (shedder, local index)
         for gi, (o, b) in enumerate(zip(case["ops"], obs["obs"])):
             if o[0] == "disable":
+                # load.Disable() counts for every shedder BUILT afterwards - a group member is built by the first
+                # GetShedder of its key, whenever its group was made (the Coq side re-derives this from the order
+                # of the configuration calls: Check.world_ok)
                 disabled = True
+            elif o[0] == "group":
+                pass
+            elif o[0] == "get":
+                per[o[1]][1]["same"] = per[o[1]][1]["same"] and b["same"]
             elif o[0] == "new":
                 cfg = case["shedders"][o[1]]
                 if cfg["via"] == "group":
-                    cfg = dict(case["group"], via="group")
+                    cfg = dict(C02._groups(case)[cfg.get("grp", 0)], via="group")
                 per[o[1]] = ({"window": cfg["window"], "buckets": cfg["buckets"], "threshold": cfg["threshold"],
                               "t0": o[2], "enabled": not disabled, "via": cfg["via"], "mode": case["mode"], "ops": []},
                              {"obs": [], "same": b["same"], "nop": b["nop"], "ws": [b["wm"], b["we"]]})
@@ -886,7 +1117,43 @@ class C02(Property):
                     li = li if k == o[1] else -1
                     c["ops"].append(["pass", li, o[3]] if o[0] == "pass" else ["fail", li])
                 ob["obs"].append(b)
-        return [per[k] for k in sorted(per)]
+        return list(per.values())
+
+    @staticmethod
+    def _groups(case):
+        return case.get("groups") or ([case["group"]] if case.get("group") else [])
+
+    def _coq_world(self, case):
+        """the configuration calls of a scenario, in the order in which they were made, as World.wev events;
+        groups and shedders are numbered in the order in which they were built"""
+        groups = self._groups(case)
+        explicit = {o[1] for o in case["ops"] if o[0] == "group"}
+        gno, evs, keys = {}, [], {}
+
+        def opts(c):
+            return "(mkOpts %s %s %s)" % (cz(c["window"]), cz(c["buckets"]), cz(c["threshold"]))
+        for g, gc in enumerate(groups):
+            if g not in explicit:       # built before the first operation
+                gno[g] = len(gno)
+                evs.append("XGroup %s" % opts(gc))
+        for o in case["ops"]:
+            if o[0] == "disable":
+                evs.append("XDisable")
+            elif o[0] == "group":
+                gno[o[1]] = len(gno)
+                evs.append("XGroup %s" % opts(groups[o[1]]))
+            elif o[0] in ("new", "get"):
+                cfg = case["shedders"][o[1]]
+                t = o[2] if o[0] == "new" else 0
+                if cfg["via"] == "group":
+                    g = cfg.get("grp", 0)
+                    key = keys.setdefault((g, cfg["key"]), len(keys))
+                    evs.append("XGet %d %s %s" % (gno[g], cz(key), cz(t)))
+                    if o[0] == "new":       # the executor calls GetShedder twice and compares
+                        evs.append("XGet %d %s %s" % (gno[g], cz(key), cz(t)))
+                else:
+                    evs.append("XNew %s %s" % (opts(cfg), cz(t)))
+        return clist(evs)
 
     def _coq_shed(self, case, obs):
         items = []
@@ -945,6 +1212,8 @@ class C02(Property):
     def _views(self, case, obs):
         """the single-shedder histories contained in a case: [(legacy case, observation)]"""
         kind = case.get("kind", "shed")
+        if obs.get("broken"):
+            return []
         if kind == "shed":
             return [(case, obs)]
         if kind == "multi":
@@ -979,6 +1248,8 @@ class C02(Property):
 
     def nontrivial(self, case, obs):
         kind = case.get("kind", "shed")
+        if obs.get("broken"):
+            return False
         if kind == "conc":
             # overlapping Allows whose verdicts differ, at least one of them parked as a dropper while another decided
             ob = obs["obs"]
@@ -1011,6 +1282,8 @@ class C02(Property):
 
     def features(self, case, obs):
         kind = case.get("kind", "shed")
+        if obs.get("broken"):
+            return ["kind=" + kind, "forced_schedule_not_executable"]
         if kind in ("multi", "wrest", "wrpc", "conc"):
             fs = ["kind=" + kind]
             vs = self._views(case, obs)
@@ -1150,6 +1423,16 @@ class C02(Property):
         return res[:240]
 
     def shrink_candidates(self, case):
+        """at most ~8000 operations per round (a 250-operation history has 240 candidates: minutes on a loaded machine)"""
+        res, total = [], 0
+        for c in self._shrink_candidates(case):
+            total += len(c.get("ops") or c.get("reqs") or c.get("keys") or [])
+            if res and total > 8000 and len(res) >= 16:
+                break
+            res.append(c)
+        return res
+
+    def _shrink_candidates(self, case):
         kind = case.get("kind", "shed")
         if kind in ("multi", "wrest", "wrpc", "conc"):
             return self._shrink_scenario(case)
